@@ -23,6 +23,9 @@ PROPS = {
         groups=['par'],
         rules=['PAR-15', 'PAR-1', 'PAR-2', 'PAR-3', 'PAR-4', 'PAR-5'],
         level='other',
+        technique='static analysis of MIR: interprocedural provenance through closure environments, linear-resource (move) tracking of the data set, dominators / must-pass-through',
+        level_text='Structural necessary conditions of exactly-once delivery, decided on all paths of the parallel machinery for every instantiation: set and output travel in one message, the received set is moved into the job on every iteration, the end marker follows join_all, next() installs what it received, per-record zip operand order and surplus handling. Not a schedule-level proof: mpsc and thread-pool semantics are trusted.',
+        level_note='Trusted: rustc MIR, std mpsc, scoped_threadpool join_all, crossbeam scope. Decides shape-visible clauses only; the global exactly-once statement over interleavings is not model-checked (DESIGN 5/C07).',
         undecided=['exactly-once delivery under every interleaving as a whole (rests on mpsc / thread-pool semantics, trusted)',
                    'arrival order with a single worker thread'],
         trusted=PAR_TRUST),
@@ -30,18 +33,27 @@ PROPS = {
         groups=['par'],
         rules=['PAR-15', 'PAR-6', 'PAR-7', 'PAR-8'],
         level='other',
+        technique='static analysis of MIR: must-pass-through (drop before join), forward flow of channel results into panicking sinks, provenance of capacities and loop bounds',
+        level_text='Necessary conditions of termination decided structurally on every path: the consumer handle is dropped before the reader thread is joined, no channel result is unwrapped, the reader leaves its loop when the recycle channel closes, capacities and the number of initial sets derive from queue_len, all threads are scoped. Global deadlock freedom over schedules is not claimed.',
+        level_note='Trusted: mpsc close semantics, crossbeam/scoped_threadpool joins. Deadlock freedom as a whole is a model-checking question and is declined (DESIGN 5/C08).',
         undecided=['deadlock freedom over all schedules as a global property (a model-checking question); only the structural necessary conditions are decided'],
         trusted=PAR_TRUST),
     'C15': dict(
         groups=['par'],
         rules=['PAR-7', 'PAR-10', 'PAR-11', 'PAR-12'],
         level='other',
+        technique='static analysis of MIR: linear-resource tracking of error values (moves, drops), forward flow into `?`, must-leave-loop reachability',
+        level_text='Every error source of the parallel path is followed by moves: the reader error is moved into exactly one Some(Err) message and the loop is left; initialiser and join results flow into `?`; per-record consumers propagate the item and the worker Result; no channel result is unwrapped. Holds for all instantiations; schedule-dependent clauses are not decided.',
+        level_note='Trusted: rustc drop elaboration (a silently discarded value is an explicit Drop terminator), mpsc semantics.',
         undecided=['"never receives a set read after the error" under all schedules', 'equality of the parse error with the sequential one (follows from delegation, see C04 FSM-D)'],
         trusted=PAR_TRUST),
     'C16': dict(
         groups=['par'],
         rules=['PAR-8', 'PAR-9'],
         level='proof',
+        technique='static analysis of MIR: who-may-call check of the data-set initialiser over the closure tree, loop-bound provenance, channel-endpoint provenance',
+        level_text='Structural bound: the data-set initialiser is invoked at exactly two sites, one inside a single loop over 0..queue_len (each iteration passes Range::next) and one outside any loop, none in reader/worker/consumer code; only the fill loop and next() send on the recycle channel (next() sends the set it replaced); the reader fills only sets it received. Together at most queue_len+1 sets exist, for every input and schedule.',
+        level_note='Proof modulo the listed trusted base (Range iteration count, mpsc, generic code cannot create a DataSet: only `Send` is known of it). Obligations = rule instances, all must be discharged.',
         undecided=['nothing of the creation bound except what is delegated to the trusted base'],
         trusted=PAR_TRUST),
 }
